@@ -64,7 +64,13 @@ class BaseMilstein(base_solver.BaseSDESolver, metaclass=abc.ABCMeta):
             y0_prime = y0 + self.y_prime_f_factor(dt, f) + g_ * sqrt_dt
             g_prime = self.sde.g(t0, y0_prime)
             g_prod_I_k = self.sde.prod(g, I_k)
-            gdg_prod = self.sde.prod(g_prime - g, v) / (2 * sqrt_dt)
+            if self.symmetric_difference:
+                # A forward difference is off by g'' g^2 sqrt(dt) / 2. That is harmless when `v` has zero mean (Ito), but
+                # here it would bias every step by O(dt^1.5) and reduce the strong order to 0.5.
+                g_prime_minus = self.sde.g(t0, y0 + self.y_prime_f_factor(dt, f) - g_ * sqrt_dt)
+                gdg_prod = self.sde.prod(g_prime - g_prime_minus, v) / (4 * sqrt_dt)
+            else:
+                gdg_prod = self.sde.prod(g_prime - g, v) / (2 * sqrt_dt)
         else:
             f = self.sde.f(t0, y0)
             g_prod_I_k, gdg_prod = self.sde.g_prod_and_gdg_prod(t0, y0, I_k, 0.5 * v)
@@ -76,6 +82,7 @@ class BaseMilstein(base_solver.BaseSDESolver, metaclass=abc.ABCMeta):
 
 class MilsteinIto(BaseMilstein):
     sde_type = SDE_TYPES.ito
+    symmetric_difference = False
 
     def v_term(self, I_k, dt):
         return I_k ** 2 - dt
@@ -86,6 +93,7 @@ class MilsteinIto(BaseMilstein):
 
 class MilsteinStratonovich(BaseMilstein):
     sde_type = SDE_TYPES.stratonovich
+    symmetric_difference = True  # `v_term` does not have zero mean.
 
     def v_term(self, I_k, dt):
         return I_k ** 2
